@@ -52,10 +52,28 @@ def shift_codes(ctx):
                   and ("imm8" in O["codes"][c]["kinds"] or "cl" in O["codes"][c]["kinds"]))
 
 
+_ck_hash = None
+
+
+def checker_hash():
+    """the sweep's result depends on the checker's own code as much as on the tree: both key the cache"""
+    global _ck_hash
+    if _ck_hash is None:
+        import glob
+        import hashlib
+        h = hashlib.sha1()
+        here = os.path.dirname(os.path.abspath(__file__))
+        for fp in sorted(glob.glob(os.path.join(here, "*.py")) + glob.glob(os.path.join(here, "rules", "*.py"))):
+            with open(fp, "rb") as fh:
+                h.update(fh.read())
+        _ck_hash = h.hexdigest()[:12]
+    return _ck_hash
+
+
 def sweep(ctx):
     cache = os.path.join(F.CACHE, "sweeps")
     os.makedirs(cache, exist_ok=True)
-    cp = os.path.join(cache, "shift-%s.json" % ctx.facts.tree)
+    cp = os.path.join(cache, "shift-%s-%s.json" % (ctx.facts.tree, checker_hash()))
     if os.path.exists(cp):
         with open(cp) as fh:
             return json.load(fh)
@@ -114,6 +132,27 @@ def compute(ctx):
                             amount.setdefault("32-bit register destination not written for a masked-zero count (the write clears bits 63:32)", []).append(c)
                     for e in o.path.events:
                         if e[0] in ("reg_write", "mem_write") and e[1] != "bytes":
+                            # by bit provenance, whatever expression computes it: for SHL / SHR with a masked count m below
+                            # the width, result bit i is operand bit i -/+ m (or 0 outside the operand)
+                            mn_ = oc["mnemonic"]
+                            if mn_ in ("Shl", "Shr", "Sal") and masked < width and \
+                                    ((e[0] == "reg_write" and U.reg_name(facts, e[2]) == "op0") or (e[0] == "mem_write" and "opmem" in repr(e[2]))):
+                                bv = A.bitvec(e[3], o.path)
+                                bv = (bv + [0] * width)[:width]
+                                from . import hmodel as H_
+                                lv_ = [x for x in H_.leaves(e[3]) if (x[0] == "reg" and x[2] == ("opreg", 0)) or x[0] == "mem"]
+                                if None not in bv and len(set(lv_)) == 1:
+                                    db = A.bitvec(A.W(lv_[0], 64), o.path)
+                                    db = (db + [0] * width)[:width]
+                                    exp_ = []
+                                    for i_ in range(width):
+                                        j_ = i_ + masked if mn_ == "Shr" else i_ - masked
+                                        exp_.append(db[j_] if 0 <= j_ < width else 0)
+                                    if bv != exp_:
+                                        amount.setdefault("shifts by the wrong amount", []).append(c)
+                                    continue
+                                if None not in bv and not lv_ and all(b_ == 0 for b_ in bv) and masked == 0:
+                                    continue
                             v = U.strip(e[3])
                             while v[0] == "cast":
                                 v = U.strip(v[1])
